@@ -868,6 +868,10 @@ func (env *Env) call(e *Expr) *Val {
 	case "errIs":
 		a, b := env.eval(e.Args[0]), env.eval(e.Args[1])
 		return scalar(App("errIs", SBool, recast(a.T, SErr), recast(b.T, SErr)), boolT)
+	case "chlen", "chcap":
+		a := env.eval(e.Args[0])
+		name := map[string]string{"chlen": "Chlen", "chcap": "Chcap"}[e.Name]
+		return scalar(Select(env.cur.get(name, SArr(SRef, SInt)), recast(a.T, SRef)), types.Typ[types.Int])
 	case "boxfresh":
 		// boxfresh(x): x is an interface value statically known to hold a []byte whose backing array was allocated by this function
 		a := env.eval(e.Args[0])
